@@ -47,3 +47,7 @@ def run(chk):
   chk.notes['action_outcome_hits'] = dict(sorted(hits.items()))
   for need in NEED:
     chk.require(hits.get(need, 0) > 0, f'vacuous: no replayed step {need}')
+
+
+def replay(chk, path):
+  symtree_check.replay_file(chk, path, CLAUSES, in_scope)
